@@ -91,7 +91,28 @@ class Base:
                  "distribution": {"sources": len(hsrc), "configs": 3}}
         if self.id != "C05":
             hpart = None
-        return ([hpart] if hpart else []) + [{"name": "programs-x-configs", "harness": "rt", "driver": None, "cases": cases, "impl_ok": impl_ok, "chunk": 40,
+        # words of literal quotings: the word the parser builds, what the printer writes for it and the word parsed from that, against
+        # the scanner model and the model of the printer's notation (Lex/Reprint.v); all texts of <= 4 symbols and random longer ones
+        import itertools
+        walpha = ["a", "'", '"', "\\", "\n", " ", "b", "\u00e9", ";", "*", "\\\n", "$", "#", "`"]
+        wt = ["".join(t) for k_ in range(1, 5) for t in itertools.product(walpha[:7], repeat=k_) if t[0] not in (" ", "\n")]
+        wrnd = random.Random(seed * 13 + 3)
+        for _ in range(6000 if tier == "quick" else 100000):
+            t = "".join(wrnd.choice(walpha[:11] if wrnd.random() < 0.85 else walpha) for _ in range(wrnd.randint(1, 12)))
+            if t[0] not in " \n":
+                wt.append(t)
+        wcases = ["%s\tword-text" % hx(t) for t in dict.fromkeys(wt)]
+
+        def wcmp(c, i, m):
+            if m in ("unmodelled", "noarg"):
+                return True
+            f = m.split(" ")
+            if i.startswith(("error", "shape")) and int(f[3]) > 1:
+                return True           # (what follows the word on the line is ill-formed or a redirection: not this part's business)
+            return i.rstrip() == " ".join(f[:3]) and f[0] == f[2]
+        wpart = {"name": "printed-words", "harness": "rword", "driver": "rword", "cases": wcases, "compare": wcmp,
+                 "nontrivial": lambda c: True, "distribution": {"texts": len(wcases)}}
+        return ([hpart] if hpart else []) + [wpart] + [{"name": "programs-x-configs", "harness": "rt", "driver": None, "cases": cases, "impl_ok": impl_ok, "chunk": 40,
                  "nontrivial": lambda c: len(c.split("\t")[0]) > 8,
                  "distribution": {"programs": len(progs), "all_256_configs_on": sum(1 for c in cases if "\tall\t" in c), "pairwise_16_on": sum(1 for c in cases if "\tall\t" not in c)}}]
 
@@ -115,6 +136,8 @@ class Base:
 
     def shrink(self, u, C):
         f = u["case"].split("\t")
+        if u.get("part") == "printed-words":
+            return u
         k0 = kind(u["impl"])
 
         def pred(t):
@@ -126,6 +149,17 @@ class Base:
 
     def replay(self, payload, C):
         c = payload["case"]
+        if payload.get("part") == "printed-words":
+            i = C.run_harness("rword", [c])[0]
+            m, _ = C.run_driver("rword", [c], [i])[0]
+            print("case : the word written as %r\nimpl : %s\nmodel: %s" % (unhx(c.split("\t")[0]).decode("utf-8", "replace"), i, m))
+            f = m.split(" ")
+            ok = m in ("unmodelled", "noarg") or (i.startswith(("error", "shape")) and int(f[3]) > 1) or (i.rstrip() == " ".join(f[:3]) and f[0] == f[2])
+            if not ok:
+                print("VIOLATION property=%s replay=(replayed)" % self.id)
+                return 1
+            print("replay: property holds on this case now")
+            return 0
         o = C.run_harness("rt", [c])[0]
         print("case :", self.describe(None, c))
         print("impl :", o[:300])
